@@ -183,7 +183,7 @@ func boxModelCases(r *Rng, n int, cf *CoqFile, st *Stats) {
 		src := "a{" + strings.Join(parts, ";") + "}"
 		res := api.Transform(src, api.TransformOptions{Loader: api.LoaderCSS, MinifySyntax: true, MinifyWhitespace: true, Supported: f.supported, LogLevel: api.LogLevelSilent})
 		if len(res.Errors) > 0 {
-			st.Fail("box-transform-error", src, res.Errors[0].Text, "no error")
+			failC12(st, "box-transform-error", src, res.Errors[0].Text, "no error")
 			continue
 		}
 		out := strings.TrimSpace(string(res.Code))
